@@ -129,3 +129,33 @@ Theorem C03_onlooker_one_pass_when_all_selectable :
   forall total fits s r, (forall f, In f fits -> (onl_hi <= abc_prob total f)%Q) -> (forall d, In d s -> (fst d < onl_hi)%Q) ->
   pass (abc_prob total) fits 0 s = Some r -> snd (fst r) = length fits.
 Proof. intros total fits s r Hp Hd H. exact (pass_all_selected (abc_prob total) onl_hi fits 0 s r Hp Hd H). Qed.
+
+(* For objectives of constant sign the regenerated probability never drops below its 1/10 floor, so every food source
+   stays selectable (each visit selects with probability >= 1/10 under a uniform stream), and a pass whose draws are
+   all below 1/10 completes the loop.  A change of the formula that loses the floor breaks this proof. *)
+Lemma Qdiv_same_sign_nonneg (a d : Q) : ((0 <= a /\ 0 < d) \/ (a <= 0 /\ d < 0))%Q -> (0 <= a / d)%Q.
+Proof.
+  destruct a as [an ad], d as [dn dd]. unfold Qle, Qlt, Qdiv, Qmult, Qinv. simpl.
+  intros [[H1 H2]|[H1 H2]]; destruct dn as [|p|p]; simpl in *; try lia; nia.
+Qed.
+
+Theorem C03_onlooker_probability_floor :
+  forall fit total, ((0 <= fit /\ 0 < total + onl_eps) \/ (fit <= 0 /\ total + onl_eps < 0))%Q ->
+  ((1 # 10) <= abc_prob total fit)%Q.
+Proof.
+  intros fit total H. unfold abc_prob, onl_prob.
+  pose proof (Qdiv_same_sign_nonneg fit (total + onl_eps) H) as Hd.
+  setoid_replace (1 # 10)%Q with (0 + (1 # 10))%Q at 1 by ring.
+  apply Qplus_le_compat; [exact Hd|apply Qle_refl].
+Qed.
+
+Theorem C03_onlooker_completes_for_constant_sign_objectives :
+  forall total fits s r,
+    (forall f, In f fits -> ((0 <= f /\ 0 < total + onl_eps) \/ (f <= 0 /\ total + onl_eps < 0))%Q) ->
+    (forall d, In d s -> (fst d < 1 # 10)%Q) ->
+    pass (abc_prob total) fits 0 s = Some r -> snd (fst r) = length fits.
+Proof.
+  intros total fits s r Hs Hd H.
+  apply (pass_all_selected (abc_prob total) (1 # 10)%Q fits 0 s r); [|exact Hd|exact H].
+  intros f Hf. apply C03_onlooker_probability_floor. apply Hs. exact Hf.
+Qed.
